@@ -143,6 +143,23 @@ func ruleAllocAppendAtomic(r *Run) {
 			if len(uses) == 0 {
 				return
 			}
+			// the use that adds the relationship (the ID store, or the call of a function that appends);
+			// what happens to the id after that — writing it into a reference — is of no concern here
+			isUse := map[ssa.Instruction]bool{}
+			var appendUses []ssa.Instruction
+			for _, u := range uses {
+				isUse[u] = true
+				if _, isSt := u.(*ssa.Store); isSt {
+					appendUses = append(appendUses, u)
+				} else if uc, ok := u.(ssa.CallInstruction); ok {
+					if cal := staticCallee(uc); cal != nil && adders[topLevel(cal)] {
+						appendUses = append(appendUses, u)
+					}
+				}
+			}
+			if len(appendUses) > 0 {
+				uses = appendUses
+			}
 			n++
 			perFn[shortName(topLevel(fn))]++
 			idx := perFn[shortName(topLevel(fn))]
@@ -150,7 +167,7 @@ func ruleAllocAppendAtomic(r *Run) {
 			var badPos token.Pos
 			allInstrs(fn, func(k ssa.Instruction) {
 				kc, ok := k.(ssa.CallInstruction)
-				if !ok || k == ssa.Instruction(c) || bad != "" {
+				if !ok || k == ssa.Instruction(c) || bad != "" || isUse[k] {
 					return
 				}
 				cal := staticCallee(kc)
